@@ -54,15 +54,46 @@ pub open spec fn ident_byte(b: u8) -> bool {
     ident_start_byte(b) || b == 0x2d || b == 0x2e
 }
 
-// ---- TRUSTED: the bytes of a Rust `&str` are valid UTF-8 (type invariant of str); only the
-// consequence `no_stray_cont` is used.  vstd specifies `str::as_bytes` as
-// `encode_utf8(s@)` but ships no lemma about continuation bytes.
-#[verifier::external_body]
+/// PROVED (was an axiom in the first version): valid UTF-8 has no stray continuation byte.
+/// Induction over vstd's `valid_utf8` (first scalar, then the rest).
+pub proof fn lemma_valid_utf8_no_stray_cont(b: Seq<u8>)
+    requires vstd::utf8::valid_utf8(b),
+    ensures no_stray_cont(b),
+    decreases b.len(),
+{
+    if b.len() > 0 {
+        let n = vstd::utf8::length_of_first_scalar(b);
+        let r = vstd::utf8::pop_first_scalar(b);
+        assert(vstd::utf8::valid_first_scalar(b));
+        lemma_valid_utf8_no_stray_cont(r);
+        assert(r =~= b.skip(n as int));
+        assert(1 <= n <= 4);
+        assert(n <= b.len());
+        assert(n >= 2 ==> b[0] >= 0xC0);
+        assert(n >= 2 ==> b[1] >= 0x80);
+        assert(n >= 3 ==> b[2] >= 0x80);
+        assert(n >= 4 ==> b[3] >= 0x80);
+        assert(!is_cont(b[0]));
+        assert forall|i: int| 0 <= i < b.len() && is_cont(#[trigger] b[i]) implies i > 0 && b[i - 1] >= 0x80 by {
+            if i < n {
+                assert(i != 0);
+            } else {
+                assert(b[i] == r[i - n]);
+                assert(is_cont(r[i - n]));
+                assert(i - n > 0 && r[i - n - 1] >= 0x80);
+                assert(r[i - n - 1] == b[i - 1]);
+            }
+        }
+    }
+}
+
+/// The bytes of a `&str` (vstd: `as_bytes` = `encode_utf8(s@)`, which vstd proves valid).
 pub proof fn axiom_str_no_stray_cont(s: &str)
     ensures no_stray_cont(str_bytes(s)),
 {
+    vstd::utf8::encode_utf8_valid_utf8(s@);
+    lemma_valid_utf8_no_stray_cont(str_bytes(s));
 }
-// ---- end TRUSTED
 
 /// `(b & 0xC0) == 0x80` is the continuation-byte test (bit-vector fact, proved).
 pub proof fn lemma_cont_mask(b: u8)
